@@ -4,6 +4,7 @@ import Cirbo.Model.Checkers
 import Cirbo.Model.Traverse
 import Cirbo.Model.Tseytin
 import Cirbo.Model.Codec
+import Cirbo.Model.Func
 /-! `cirbo_model`: one JSON request per input line, one JSON response per output line. -/
 open Lean Cirbo Driver
 
@@ -27,6 +28,35 @@ def jNats (l : List Nat) : Json := Json.arr (l.map (fun n => Json.num (Lean.Json
 def ofOpt {α} (f : α → Json) (e : String) : Option α → Json
   | some a => ok (f a)
   | none => err e
+
+def jB (b : Bool) : Json := Json.bool b
+def jBs (l : List Bool) : Json := Json.str (String.join (l.map (fun b => if b then "1" else "0")))
+def parseBits (s : String) : List Bool := s.toList.map (· == '1')
+
+/-- all protocol answers of a representation, with the implementation variants of `kind` -/
+def funcQueries (F : FRep) (kind : String) (negSets : List (List Nat)) : Json :=
+  let outs := List.range F.m
+  let ins := List.range F.n
+  let monoAt := fun o inv => if kind == "circuit" then F.isMonotoneAtC o inv else F.isMonotoneAtP o inv
+  let mono := fun inv => if kind == "circuit" then F.isMonotoneC inv
+    else if kind == "table" then F.isMonotoneT inv else F.isMonotoneP inv
+  let eq := fun o i => if kind == "table" then F.equalInputT o i false else F.equalInput o i
+  let eqn := fun o i => if kind == "table" then F.equalInputT o i true else F.equalInputNeg o i
+  Json.mkObj [
+    ("const", jB F.isConstant),
+    ("const_at", Json.arr (outs.map (fun o => jB (F.isConstantAt o))).toArray),
+    ("mono", Json.arr #[jB (mono false), jB (mono true)]),
+    ("mono_at", Json.arr (outs.map (fun o => Json.arr #[jB (monoAt o false), jB (monoAt o true)])).toArray),
+    ("sym", jB F.isSymmetric),
+    ("sym_at", Json.arr (outs.map (fun o => jB (F.isSymmetricAt o))).toArray),
+    ("dep", Json.arr (outs.map (fun o => jBs (ins.map (fun i => F.isDependent o i)))).toArray),
+    ("eq", Json.arr (outs.map (fun o => jBs (ins.map (fun i => eq o i)))).toArray),
+    ("eqn", Json.arr (outs.map (fun o => jBs (ins.map (fun i => eqn o i)))).toArray),
+    ("sig", Json.arr (outs.map (fun o => jNats (F.significant o))).toArray),
+    ("neg", Json.arr (negSets.map (fun s => match F.findNegations s with
+      | none => Json.null
+      | some n => jBs n)).toArray),
+    ("tt", Json.arr (F.truthTable.map jBs).toArray)]
 
 def handle (j : Json) : Except String Json := do
   let op ← (← j.getObjVal? "op").getStr?
@@ -123,6 +153,40 @@ def handle (j : Json) : Except String Json := do
     let bs ← nats (← j.getObjVal? "bytes")
     pure (ofOpt (fun d => Json.arr (d.map (fun kv => Json.arr #[jNats kv.1, jNats kv.2])).toArray)
       "BinaryDictIOError" (readDict bs))
+  | "func_queries" => do
+    let kind ← (← j.getObjVal? "kind").getStr?
+    let negSets ← (← (← j.getObjVal? "neg_sets").getArr?).toList.mapM nats
+    if kind == "circuit" then do
+      let c ← getCircuit j
+      let F : FRep := ⟨c.inputs.length, c.outputs.length, fun x =>
+        match evaluate c (x.map V3.ofBool) with
+        | .ok vs => vs.map (· == V3.T)
+        | .error _ => []⟩
+      pure (ok (funcQueries F kind negSets))
+    else do
+      let n ← (← j.getObjVal? "n").getNat?
+      let rows ← strs (← j.getObjVal? "table")
+      pure (ok (funcQueries (FRep.ofTable n (rows.map parseBits)) kind negSets))
+  | "index_to_input" => do
+    let k ← (← j.getObjVal? "index").getNat?
+    let size ← (← j.getObjVal? "size").getNat?
+    pure (ok (jBs (FRep.indexToInput k size)))
+  | "canonical_index" => do
+    let x ← (← j.getObjVal? "x").getStr?
+    pure (ok (Json.num (Lean.JsonNumber.fromNat (FRep.canonicalIndex (parseBits x)))))
+  | "get_bit_value" => do
+    let a ← nats (← j.getObjVal? "args")
+    pure (ok (jB (FRep.getBitValue (a.getD 0 0) (a.getD 1 0) (a.getD 2 0))))
+  | "from_int" => do
+    -- values: table of the integer function (unary: f(i) = values[i]; binary: f(i,j) = values[i*2^len+j])
+    let vals ← nats (← j.getObjVal? "values")
+    let inLen ← (← j.getObjVal? "in_len").getNat?
+    let outLen ← (← j.getObjVal? "out_len").getNat?
+    let be ← (← j.getObjVal? "big_endian").getBool?
+    let binary ← (← j.getObjVal? "binary").getBool?
+    let F := if binary then FRep.fromIntBinary (fun a b => vals.getD (a * 2 ^ inLen + b) 0) inLen outLen be
+             else FRep.fromIntUnary (fun a => vals.getD a 0) inLen outLen be
+    pure (ok (Json.arr ((allInputs F.n).map (fun x => jBs (F.ev x))).toArray))
   | "optable_issues" => pure (ok (jStrs opTableIssues))
   | "check_wf" => do
     let c ← getCircuit j
